@@ -316,9 +316,14 @@ def check_and_load_args(args, parser):
                 logger.info("Overwriting the previous run")
                 time.sleep(1)
             # stage markers of the previous run must not be taken for the state of the new run by a later --resume
-            for marker_pattern in ["*_lock", "*_collected", "*_processed"]:
-                for marker_file in glob.glob(os.path.join(glob.escape(args.output), "*", "aux", marker_pattern)):
-                    os.remove(marker_file)
+            # (folders and files are listed, not globbed: an experiment may be called ".x", which "*" does not match)
+            for experiment_dir in os.listdir(args.output):
+                aux_dir = os.path.join(args.output, experiment_dir, "aux")
+                if not os.path.isdir(aux_dir):
+                    continue
+                for aux_file in os.listdir(aux_dir):
+                    if aux_file.endswith(("_lock", "_collected", "_processed")):
+                        os.remove(os.path.join(aux_dir, aux_file))
             # the same holds for the uncompressed copy of a gzipped reference, which --resume does not create again
             if args.reference:
                 ref_name, outer_ext = os.path.splitext(os.path.basename(args.reference))
